@@ -64,6 +64,8 @@ def write_results():
             continue
         m = json.load(open(mp))
         checks = m.get('checks', {})
+        if m.get('note'):
+            m['needs_to_manifest'] = (m.get('needs_to_manifest', '') + ' NOTE: ' + m['note']).strip()
         killed = sorted(p for p, c in checks.items() if c['verdict'] == 'KILLED')
         survived = sorted(p for p, c in checks.items() if c['verdict'] == 'SURVIVED')
         errors = sorted(p for p, c in checks.items() if c['verdict'].startswith('ERROR'))
@@ -72,7 +74,10 @@ def write_results():
         if tgt in checks and checks[tgt]['first']:
             f = checks[tgt]['first'][-1]
             first = f.split('detail=')[0].replace('clause=', '').strip()
-        rows.append((name, tgt, 'yes' if m.get('confirmed') else 'NO', checks.get(tgt, {}).get('verdict', 'not run'),
+        status = checks.get(tgt, {}).get('verdict', 'not run')
+        if m.get('patch_status'):
+            status = 'obsolete (%s)' % status
+        rows.append((name, tgt, 'yes' if m.get('confirmed') else 'NO', status,
                      first, ' '.join(killed), ' '.join(survived), ' '.join(errors), m.get('needs_to_manifest', '')))
     with open(os.path.join(SEEDED, 'RESULTS.md'), 'w') as f:
         f.write('# Seeded changes: which checks catch which change\n\n')
@@ -86,7 +91,10 @@ def write_results():
             f.write('| ' + ' | '.join(str(x).replace('|', '/') for x in r) + ' |\n')
         n = len(rows)
         k = sum(1 for r in rows if r[3] == 'KILLED')
-        f.write('\n%d seeded changes, %d caught by the check of their own property.\n' % (n, k))
+        o = sum(1 for r in rows if r[3].startswith('obsolete'))
+        f.write('\n%d seeded changes: %d caught by the check of their own property, %d obsolete (the patch no longer applies '
+                'after a repair of the library; each is re-based as <name>2), %d not caught by their own property (see the note in '
+                'their meta.json).\n' % (n, k, o, n - k - o))
     return rows
 
 
@@ -113,7 +121,7 @@ def main():
                 print(name, {k: v['verdict'] if isinstance(v, dict) else v for k, v in out.items()})
                 sys.stdout.flush()
     rows = write_results()
-    bad = [r for r in rows if r[3] != 'KILLED']
+    bad = [r for r in rows if r[3] != 'KILLED' and not r[3].startswith('obsolete')]
     print('%d seeds, %d not killed by their target check: %s' % (len(rows), len(bad), [r[0] for r in bad]))
 
 
